@@ -82,6 +82,25 @@ type parser struct {
 	col    int
 	onDeck byte
 	eof    bool
+	depth  int // current nesting of lists, objects, list types, and selection sets
+}
+
+// maxNestDepth is the deepest nesting of list and object values, list types,
+// and selection sets that is accepted. The parsers are recursive so without a
+// limit a deeply nested document overflows the stack.
+const maxNestDepth = 1000
+
+// nest is called when entering a nested construct, unnest when leaving it.
+func (p *parser) nest() error {
+	p.depth++
+	if maxNestDepth < p.depth {
+		return parseError(p.line, p.col, "nested more than %d levels deep", maxNestDepth)
+	}
+	return nil
+}
+
+func (p *parser) unnest() {
+	p.depth--
 }
 
 // ParseValue parses a reader into a value where the input follows the SDL
@@ -237,6 +256,10 @@ func (p *parser) readType() (t Type, err error) {
 			return
 		case '[':
 			_, _ = p.readByte() // re-read [
+			if err = p.nest(); err != nil {
+				return nil, err
+			}
+			defer p.unnest()
 			if t, err = p.readType(); err != nil {
 				return
 			}
@@ -470,6 +493,10 @@ func (p *parser) readValue() (v interface{}, err error) {
 		}
 	case '[':
 		_, _ = p.readByte() // re-read [
+		if err = p.nest(); err != nil {
+			return nil, err
+		}
+		defer p.unnest()
 		list := []interface{}{}
 		for {
 			if b, err = p.skipSpace(); err != nil {
@@ -490,6 +517,10 @@ func (p *parser) readValue() (v interface{}, err error) {
 		}
 	case '{':
 		_, _ = p.readByte() // re-read {
+		if err = p.nest(); err != nil {
+			return nil, err
+		}
+		defer p.unnest()
 		obj := map[string]interface{}{}
 		for {
 			if b, err = p.skipSpace(); err != nil {
